@@ -1091,7 +1091,9 @@ func (p *Parser) parseCastExpression() (*ast.CastExpression, error) {
 		p.advance() // Consume (
 
 		// Build the full type string including parameters
-		typeParams := "("
+		// (a builder: appending to a string re-copies it for every parameter)
+		var typeParams strings.Builder
+		typeParams.WriteString("(")
 		paramCount := 0
 
 		for !p.isType(models.TokenTypeRParen) {
@@ -1099,7 +1101,7 @@ func (p *Parser) parseCastExpression() (*ast.CastExpression, error) {
 				if !p.isType(models.TokenTypeComma) {
 					return nil, p.expectedError(", or )")
 				}
-				typeParams += p.currentToken.Literal
+				typeParams.WriteString(p.currentToken.Literal)
 				p.advance() // Consume comma
 			}
 
@@ -1112,13 +1114,13 @@ func (p *Parser) parseCastExpression() (*ast.CastExpression, error) {
 				)
 			}
 
-			typeParams += p.currentToken.Literal
+			typeParams.WriteString(p.currentToken.Literal)
 			p.advance()
 			paramCount++
 		}
 
-		typeParams += ")"
-		dataType += typeParams
+		typeParams.WriteString(")")
+		dataType += typeParams.String()
 
 		if !p.isType(models.TokenTypeRParen) {
 			return nil, p.expectedError(")")
